@@ -14,7 +14,7 @@ Definition fvm (m : mem) := (st_async (m_set m), m_started m).
    a write pending only when the routine is marked started *)
 Record R (h h' : handle) : Prop := {
   r_cancel : h_cancel h' = h_cancel h;
-  r_fl : exists x, h_fl h' = h_fl h ++ x /\
+  r_fl : exists x, (h_fl h' = h_fl h ++ x /\ Forall (fun f => f = (0%Z, true)) x) /\
          match h_mem h, h_mem h' with
          | Some m, Some m' =>
              st_async (m_set m') = st_async (m_set m) /\
@@ -30,7 +30,7 @@ Record R (h h' : handle) : Prop := {
 Lemma R_refl h : R h h.
 Proof.
   constructor; [reflexivity| |intros H; left; exact H].
-  exists []. rewrite app_nil_r. split; [reflexivity|]. destruct (h_mem h); [|exact I].
+  exists []. rewrite app_nil_r. split; [split; [reflexivity|constructor]|]. destruct (h_mem h); [|exact I].
   split; [reflexivity|]. split; [intros H; exact H|intros H; left; exact H].
 Qed.
 
@@ -41,9 +41,9 @@ Proof. destruct x; [intros H; exact H|discriminate]. Qed.
 
 Lemma R_trans h1 h2 h3 : R h1 h2 -> R h2 h3 -> R h1 h3.
 Proof.
-  intros [C1 [x [F1 M1]] P1] [C2 [y [F2 M2]] P2]. constructor.
+  intros [C1 [x [[F1 Z1] M1]] P1] [C2 [y [[F2 Z2] M2]] P2]. constructor.
   - congruence.
-  - exists (x ++ y). split; [rewrite F2, F1, app_assoc; reflexivity|].
+  - exists (x ++ y). split; [split; [rewrite F2, F1, app_assoc; reflexivity|apply Forall_app; split; assumption]|].
     destruct (h_mem h1) as [m1|], (h_mem h2) as [m2|], (h_mem h3) as [m3|]; try tauto.
     + destruct M1 as [A1 [U1 D1]]. destruct M2 as [A2 [U2 D2]]. split; [congruence|]. split; [tauto|].
       intros H. destruct (D2 H) as [H2|H2]; [|right; apply app_nonnil_r; exact H2].
@@ -62,7 +62,7 @@ Lemma R_view h h' : h_fl h' = h_fl h -> h_cancel h' = h_cancel h ->
   (h_pend h' <> [] -> h_pend h <> []) -> R h h'.
 Proof.
   intros F C M P. constructor; [exact C| |intros H; left; apply P; exact H].
-  exists []. rewrite app_nil_r. split; [exact F|].
+  exists []. rewrite app_nil_r. split; [split; [exact F|constructor]|].
   destruct (h_mem h) as [m|], (h_mem h') as [m'|]; cbn in M; try discriminate; [|exact I].
   injection M as A S. split; [exact A|]. rewrite S. split; [intros H; exact H|intros H; left; exact H].
 Qed.
@@ -73,7 +73,7 @@ Proof.
   destruct (async_on m && negb (m_started m)) eqn:E; [|apply R_refl].
   apply andb_true_iff in E. destruct E as [_ E]. apply negb_true_iff in E.
   constructor; cbn [set_fl set_mem h_cancel h_fl h_mem h_pend]; [reflexivity| |intros H; left; exact H].
-  exists [(0%Z, true)]. split; [reflexivity|]. rewrite Hm. cbn [m_set m_started].
+  exists [(0%Z, true)]. split; [split; [reflexivity|repeat constructor]|]. rewrite Hm. cbn [m_set m_started].
   split; [reflexivity|]. split; [reflexivity|]. intros _. right. discriminate.
 Qed.
 
@@ -88,7 +88,7 @@ Qed.
 Lemma R_set_mem_none h m : h_mem h = None -> m_started m = false -> R h (set_mem h (Some m)).
 Proof.
   intros Hm S. constructor; cbn [set_mem h_cancel h_fl h_mem h_pend]; [reflexivity| |intros H; left; exact H].
-  exists []. rewrite app_nil_r. split; [reflexivity|]. rewrite Hm. congruence.
+  exists []. rewrite app_nil_r. split; [split; [reflexivity|constructor]|]. rewrite Hm. congruence.
 Qed.
 
 (* db.schema *)
@@ -139,7 +139,7 @@ Proof.
   destruct (async_on m1) eqn:A.
   - inversion H; subst. constructor; cbn [set_pend h_cancel h_fl h_mem h_pend].
     + exact C2.
-    + exists []. rewrite app_nil_r. split; [exact F2|]. rewrite Hm, M2. cbn. split; [reflexivity|]. split; [intros X; exact X|intros X; left; exact X].
+    + exists []. rewrite app_nil_r. split; [split; [exact F2|constructor]|]. rewrite Hm, M2. cbn. split; [reflexivity|]. split; [intros X; exact X|intros X; left; exact X].
     + intros _. right. exists m1. split; [exact M2|]. split; [apply Hs|]; exact A.
   - destruct (write_object w m1 u o) as [[e|] w1]; [inversion H; subst; exact G2|].
     destruct c; [|inversion H; subst; exact G2].
@@ -497,14 +497,14 @@ Definition FJ (h : handle) : Prop :=
 
 Lemma PA_R h h' : PA h -> R h h' -> PA h'.
 Proof.
-  intros P [C [x [F M]] Pd] H. destruct (Pd H) as [H0|[m' [E [_ A]]]]; [|exists m'; split; assumption].
+  intros P [C [x [[F Zx] M]] Pd] H. destruct (Pd H) as [H0|[m' [E [_ A]]]]; [|exists m'; split; assumption].
   destruct (P H0) as [m [Em Am]]. rewrite Em in M. destruct (h_mem h') as [m'|]; [|destruct M].
   exists m'. split; [reflexivity|]. destruct M as [A' _]. unfold async_on in *. rewrite A'. exact Am.
 Qed.
 
 Lemma FJ_R h h' : FJ h -> PA h -> R h h' -> FJ h'.
 Proof.
-  intros J P [C [x [F M]] Pd] Hc m' Em' Am' Hor. rewrite C in Hc. rewrite F.
+  intros J P [C [x [[F Zx] M]] Pd] Hc m' Em' Am' Hor. rewrite C in Hc. rewrite F.
   assert (St : m_started m' = true -> h_fl h ++ x <> []).
   { intros S. rewrite Em' in M. destruct (h_mem h) as [m|] eqn:Em.
     - destruct M as [A [_ D]]. destruct (D S) as [S0|X]; [|apply app_nonnil_r; exact X].
@@ -521,7 +521,7 @@ Definition live_async (h : handle) : Prop := h_cancel h = false /\ exists m, h_m
 
 Lemma live_async_R h h' : live_async h -> R h h' -> live_async h'.
 Proof.
-  intros [C [m [Em Am]]] [C' [x [F M]] _]. split; [congruence|]. rewrite Em in M.
+  intros [C [m [Em Am]]] [C' [x [[F Zx] M]] _]. split; [congruence|]. rewrite Em in M.
   destruct (h_mem h') as [m'|]; [|destruct M]. exists m'. split; [reflexivity|]. destruct M as [A _].
   unfold async_on in *. rewrite A. exact Am.
 Qed.
@@ -567,7 +567,7 @@ Lemma FJ_run ls b h w h1 w1 fl' : FJ h -> PA h ->
 Proof.
   intros J P H. destruct (run_flushers_R _ _ _ _ _ _ _ _ _ H) as [G L].
   split; [|apply (PA_R (set_fl h []) h1); [exact P|exact G]].
-  destruct G as [C [x [F M]] Pd]. cbn [set_fl h_cancel h_fl h_mem h_pend app] in *.
+  destruct G as [C [x [[F Zx] M]] Pd]. cbn [set_fl h_cancel h_fl h_mem h_pend app] in *.
   intros Hc m' Em' Am' Hor. cbn [set_fl h_cancel h_fl h_mem h_pend] in *. rewrite F.
   rewrite C in Hc.
   (* the goroutines that were there are all still there *)
@@ -786,7 +786,7 @@ Definition asy (h : handle) (thr tmo : Z) : Prop :=
 
 Lemma asy_R h h' thr tmo : asy h thr tmo -> R h h' -> asy h' thr tmo.
 Proof.
-  intros [C [m [Em Am]]] [C' [x [F M]] _]. split; [congruence|]. rewrite Em in M.
+  intros [C [m [Em Am]]] [C' [x [[F Zx] M]] _]. split; [congruence|]. rewrite Em in M.
   destruct (h_mem h') as [m'|]; [|destruct M]. exists m'. split; [reflexivity|]. destruct M as [A _]. congruence.
 Qed.
 
@@ -912,3 +912,190 @@ Proof.
   - vm_lhs.
   - vm_lhs.
 Qed.
+
+(* ================================================================ counters are never negative, hence the
+   bound in its usual form: within timeout + 1 ticks *)
+Definition zero_new (x : list (Z * bool)) : Prop := Forall (fun f => f = (0%Z, true)) x.
+Definition fl_ext (h h' : handle) : Prop := exists x, h_fl h' = h_fl h ++ x /\ zero_new x.
+Definition NN (h : handle) : Prop := Forall (fun f : Z * bool => (0 <= fst f)%Z) (h_fl h).
+
+Lemma R_fl_ext h h' : R h h' -> fl_ext h h'.
+Proof. intros [_ [x [[F Zx] _]] _]. exists x. split; assumption. Qed.
+
+Lemma fl_ext_refl h : fl_ext h h.
+Proof. exists []. rewrite app_nil_r. split; [reflexivity|constructor]. Qed.
+
+Lemma NN_ext h h' : NN h -> fl_ext h h' -> NN h'.
+Proof.
+  intros N [x [F Zx]]. unfold NN. rewrite F. apply Forall_app. split; [exact N|].
+  eapply Forall_impl; [|exact Zx]. intros f ->. cbn. lia.
+Qed.
+
+Lemma fl_ext_same h h' : h_fl h' = h_fl h -> fl_ext h h'.
+Proof. intros E. exists []. rewrite app_nil_r. split; [exact E|constructor]. Qed.
+
+Lemma fl_ext_trans a b c : fl_ext a b -> fl_ext b c -> fl_ext a c.
+Proof.
+  intros [x [F1 Z1]] [y [F2 Z2]]. exists (x ++ y). split; [rewrite F2, F1, app_assoc; reflexivity|apply Forall_app; split; assumption].
+Qed.
+
+Lemma create_fl_ext hk ls s st fds : fl_ext (s_h s) (s_h (fst (step_fg hk ls s (OCreate st fds)))).
+Proof.
+  cbn [step_fg].
+  destruct (db_schema ls (s_h s) (w_disk (s_w s))) as [[h1 om] e] eqn:D.
+  destruct (R_db_schema _ _ _ _ _ _ D) as [G _]. pose proof (R_fl_ext _ _ G) as G1.
+  destruct om as [m|]; [destruct e as [x|]|].
+  - destruct x; cbn [fst mk s_h]; try exact G1.
+    destruct (fs_mkdir (s_w s)) as [ok w1]. destruct (negb ok); cbn [fst mk s_h]; [exact G1|].
+    match goal with |- context [control_mem ls ?mm] => set (m0 := mm) end.
+    destruct (match d_schema (w_disk w1) with
+              | Some _ => (None, w1)
+              | None => let (ok2, w2) := fs_write_schema w1 (sfile_of m0) in ((if ok2 then None else Some EStorage), w2)
+              end) as [e2 w2].
+    destruct e2; cbn [fst mk s_h]; [exact G1|].
+    destruct (control_mem ls m0 (w_disk w2)); cbn [fst mk s_h]; exact G1.
+  - destruct (negb (str_eqb (st_ext (m_set m)) (st_ext st))); cbn [fst mk s_h]; [exact G1|].
+    destruct (negb ((length (m_fields m) =? length fds)%nat && forallb (fun p => fdesc_eqb (fst p) (snd p)) (combine (m_fields m) fds)));
+      cbn [fst mk s_h]; [exact G1|].
+    destruct (if async_on m && negb (match st_async st with Some _ => true | None => false end)
+              then flush_all ls h1 (s_w s) else (h1, None, s_w s)) as [[h2 fe] w0] eqn:Fl.
+    assert (G2 : fl_ext (s_h s) h2).
+    { destruct (async_on m && negb (match st_async st with Some _ => true | None => false end)).
+      - eapply fl_ext_trans; [exact G1|apply R_fl_ext; apply (R_flush_all _ _ _ _ _ _ Fl)].
+      - inversion Fl; subst. exact G1. }
+    destruct fe as [x|]; cbn [fst mk s_h]; [exact G2|].
+    match goal with |- context [save_schema w0 ?mm] => set (m1 := mm) end.
+    destruct (save_schema w0 m1) as [e1 w1]. cbn [fst mk s_h].
+    destruct (must_cache m1); cbn [set_mem set_cache h_fl]; (eapply fl_ext_trans; [exact G2|apply fl_ext_same; reflexivity]).
+  - destruct e as [x|]; cbn [fst mk s_h]; [|exact G1].
+    destruct x; cbn [fst mk s_h]; try exact G1.
+    destruct (fs_mkdir (s_w s)) as [ok w1]. destruct (negb ok); cbn [fst mk s_h]; [exact G1|].
+    match goal with |- context [control_mem ls ?mm] => set (m0 := mm) end.
+    destruct (match d_schema (w_disk w1) with
+              | Some _ => (None, w1)
+              | None => let (ok2, w2) := fs_write_schema w1 (sfile_of m0) in ((if ok2 then None else Some EStorage), w2)
+              end) as [e2 w2].
+    destruct e2; cbn [fst mk s_h]; [exact G1|].
+    destruct (control_mem ls m0 (w_disk w2)); cbn [fst mk s_h]; [exact G1|].
+    eapply fl_ext_trans; [exact G1|apply fl_ext_same; reflexivity].
+Qed.
+
+Lemma step_fg_fl hk ls s o : o <> OTick -> o <> OReopen ->
+  fl_ext (s_h s) (s_h (fst (step_fg hk ls s o))).
+Proof.
+  intros Nt Nr. destruct (fl_op_all o) as [P|[W|S]].
+  - destruct (step_fg hk ls s o) as [s1 r] eqn:H. apply R_fl_ext. apply (R_step_fg _ _ _ _ _ _ P H).
+  - rewrite (world_op_handle hk ls s o W). apply fl_ext_refl.
+  - destruct o; try destruct S; try congruence.
+    + apply create_fl_ext.
+    + (* Close *)
+      cbn [step_fg].
+      destruct (flush_all ls (set_cancel (s_h s)) (s_w s)) as [[h1 e1] w1] eqn:F.
+      pose proof (R_fl_ext _ _ (R_flush_all _ _ _ _ _ _ F)) as G1. cbn [set_cancel h_fl] in G1.
+      assert (G1' : fl_ext (s_h s) h1) by (destruct G1 as [x [E Z]]; exists x; split; assumption).
+      destruct (h_mem h1) as [m1|]; [|exact G1'].
+      destruct (commit ls h1 w1) as [[h2 e2] w2] eqn:C.
+      pose proof (fl_ext_trans _ _ _ G1' (R_fl_ext _ _ (R_commit _ _ _ _ _ _ C))) as G2.
+      destruct e2; exact G2.
+    + (* Drop *) cbn [step_fg]. destruct (fs_remove_all (s_w s)). cbn [fst mk s_h]. apply fl_ext_same. reflexivity.
+Qed.
+
+Lemma flusher_iter_nn ls h w sl wake h1 w1 s' : flusher_iter ls h w sl wake = Ok (h1, w1, Some s') ->
+  (0 <= sl)%Z -> (0 <= s')%Z.
+Proof.
+  unfold flusher_iter. destruct (h_mem h) as [m|]; [|discriminate].
+  destruct (st_async (m_set m)) as [[thr tmo]|]; [|discriminate].
+  destruct (_ || _).
+  - destruct (h_cancel h); [discriminate|]. destruct (flush_all_commit ls h w) as [[h2 [e|]] w2]; [discriminate|].
+    intros H; inversion H; subst. lia.
+  - intros H; inversion H; subst. destruct wake; lia.
+Qed.
+
+Lemma run_flushers_nn ls b : forall fl h w acc h1 w1 fl', run_flushers ls h w fl b acc = Ok (h1, w1, fl') ->
+  Forall (fun f : Z * bool => (0 <= fst f)%Z) fl -> Forall (fun f : Z * bool => (0 <= fst f)%Z) acc ->
+  Forall (fun f : Z * bool => (0 <= fst f)%Z) fl'.
+Proof.
+  induction fl as [|[sl fresh] r IH]; intros h w acc h1 w1 fl' H Nf Na; cbn [run_flushers] in H.
+  - inversion H; subst. apply Forall_rev. exact Na.
+  - inversion Nf as [|? ? N0 Nr]; subst. cbn [fst] in N0. destruct (b && negb fresh).
+    + eapply IH; [exact H|exact Nr|constructor; [exact N0|exact Na]].
+    + destruct (flusher_iter ls h w sl (negb fresh)) as [[[h2 w2] x]|e|] eqn:F; try discriminate.
+      destruct x as [s2|].
+      * eapply IH; [exact H|exact Nr|]. constructor; [cbn [fst]; apply (flusher_iter_nn _ _ _ _ _ _ _ _ F N0)|exact Na].
+      * eapply IH; [exact H|exact Nr|exact Na].
+Qed.
+
+Lemma NN_run ls b h w h1 w1 fl' : NN h ->
+  run_flushers ls (set_fl h []) w (h_fl h) b [] = Ok (h1, w1, fl') -> NN (set_fl h1 (fl' ++ h_fl h1)).
+Proof.
+  intros N H. unfold NN. cbn [set_fl h_fl]. apply Forall_app. split.
+  - apply (run_flushers_nn _ _ _ _ _ _ _ _ _ H N). constructor.
+  - destruct (run_flushers_R _ _ _ _ _ _ _ _ _ H) as [G _]. destruct (R_fl_ext _ _ G) as [x [F Zx]].
+    cbn [set_fl h_fl app] in F. rewrite F. eapply Forall_impl; [|exact Zx]. intros f ->. cbn. lia.
+Qed.
+
+Lemma step_fg_NN hk ls s o : o <> OTick -> NN (s_h s) -> NN (s_h (fst (step_fg hk ls s o))).
+Proof.
+  intros Nt N. destruct o; try (eapply NN_ext; [exact N|apply step_fg_fl; discriminate]).
+  - (* Reopen *) cbn [step_fg fst mk s_h]. constructor.
+  - congruence.
+Qed.
+
+Lemma step_unfold_nontick hk ls s o : o <> OTick ->
+  step hk ls s o =
+  (let armed := match o with OFailAt _ | OCrashAt _ => true | _ => false end in
+   let (s1, r) := step_fg hk ls s o in
+   let w1 := s_w s1 in
+   let w2 := if armed then w1
+             else {| w_disk := w_disk w1; w_fail := None; w_fired := w_fired w1; w_crash := false;
+                     w_dead := false; w_log := w_log w1 |} in
+   if w_dead w1 then (mk new_handle w2, RCrash) else
+   match settle ls (s_h s1) w2 with
+   | Ok (h2, w3) => (mk h2 w3, r)
+   | Err e => (mk (s_h s1) w2, r)
+   | Panic => (mk (s_h s1) w2, RPanic)
+   end).
+Proof. intros Nt. destruct o; try reflexivity. congruence. Qed.
+
+Theorem NN_step hk ls s o : NN (s_h s) -> NN (s_h (fst (step hk ls s o))).
+Proof.
+  intros N. destruct (op_eq_tick o) as [->|Nt].
+  - unfold step.
+    destruct (run_flushers ls (set_fl (s_h s) []) (s_w s) (h_fl (s_h s)) false []) as [[[h1 w1] fl']|e|] eqn:Rn;
+      cbn [fst mk s_h]; [apply (NN_run _ _ _ _ _ _ _ N Rn)|exact N|exact N].
+  - rewrite (step_unfold_nontick hk ls s o Nt). cbv zeta.
+    pose proof (step_fg_NN hk ls s o Nt N) as N1. destruct (step_fg hk ls s o) as [s1 r]. cbn [fst] in N1.
+    destruct (w_dead (s_w s1)); [cbn [fst mk s_h]; constructor|].
+    match goal with |- context [settle ls ?h ?w] => destruct (settle ls h w) as [[h2 w3]|e|] eqn:St end;
+      cbn [fst mk s_h]; [|exact N1|exact N1].
+    unfold settle in St. destruct (existsb _ _); [|inversion St; subst; exact N1].
+    match type of St with context [run_flushers ?a ?b ?c ?d ?e0 ?f] => destruct (run_flushers a b c d e0 f) as [[[h1 w1] fl]|er|] eqn:Rn end; try discriminate.
+    inversion St; subst. apply (NN_run _ _ _ _ _ _ _ N1 Rn).
+Qed.
+
+Theorem NN_always hk ls ops : NN (s_h (run hk ls init_state ops)).
+Proof.
+  unfold run. assert (G : forall s, NN (s_h s) -> NN (s_h (fold_left (fun st o => fst (step hk ls st o)) ops s))).
+  { induction ops as [|o r IH]; intros s N; [exact N|]. cbn [fold_left]. apply IH. apply NN_step. exact N. }
+  apply G. constructor.
+Qed.
+
+(* THE BOUND IN ITS USUAL FORM: in a state reached from the initial state (so that counters are not
+   negative) where the invariants hold, asynchronous writes enabled with timeout tmo, a write pending:
+   after tmo + 1 ticks (one suffices to start a goroutine that has not run yet) nothing is pending, every
+   accepted object is in its file and the schema is committed *)
+Theorem pending_flushed_within_timeout hk ls s thr tmo :
+  Inv ls s -> JP (s_h s) -> NN (s_h s) -> asy (s_h s) thr tmo -> h_pend (s_h s) <> [] ->
+  let k := S (Z.to_nat tmo) in
+  synced_st (ticks hk ls k s) /\ Inv ls (ticks hk ls k s) /\ abs (ticks hk ls k s) = abs s.
+Proof.
+  intros I [J P] N A Hp. pose proof A as [C [m [Em Am]]].
+  assert (Nf : h_fl (s_h s) <> []).
+  { apply (J C m Em); [unfold async_on; rewrite Am; reflexivity|right; exact Hp]. }
+  destruct (h_fl (s_h s)) as [|f r] eqn:Ef; [congruence|].
+  assert (Ef0 : (-1 <= eff f)%Z).
+  { unfold NN in N. rewrite Ef in N. inversion N as [|? ? N0 _]; subst. unfold eff. destruct f as [sl [|]]; cbn [fst snd] in *; lia. }
+  cbv zeta. apply (flushed_within_timeout hk ls (Z.to_nat tmo) s thr tmo f I A); [rewrite Ef; left; reflexivity|lia].
+Qed.
+Print Assumptions NN_always.
+Print Assumptions pending_flushed_within_timeout.
